@@ -3,7 +3,7 @@
     errbacks that synchronously make a further call at answer, error or connection-loss time), box deliveries in either direction, pending
     responders answering in any order, and connection loss at any point. *)
 From Coq Require Import List Arith Bool Permutation.
-From C31 Require Import Model Proofs.
+From C31 Require Import Model Proofs Proofs2.
 Import ListNotations.
 
 (** ids of calls whose Deferred fired, followed by the ids still outstanding at A and at B, are a
@@ -36,21 +36,44 @@ Print Assumptions unanswered_fail_with_loss_reason.
 Theorem calls_after_loss_fail_immediately : forall s p k f, up s = false ->
   let r := step s (OCall p k f) in
   up (fst r) = false /\ outA (fst r) = outA s /\ outB (fst r) = outB s /\
-  (snd r = [EResult (ncalls s) RLost] \/
-   snd r = [EResult (ncalls s) RLost; ENested (S (ncalls s)); EResult (S (ncalls s)) RLost]).
+  (snd r = [ECall (ncalls s) k; EResult (ncalls s) RLost] \/
+   snd r = [ECall (ncalls s) k; EResult (ncalls s) RLost;
+            ENested (S (ncalls s)); ECall (S (ncalls s)) Know; EResult (S (ncalls s)) RLost]).
 Proof. exact call_after_loss. Qed.
 Print Assumptions calls_after_loss_fail_immediately.
 
-(** FULL STATEMENT not proved in Coq: answer_matches_own_question -- every [EResult c (ROk n)] in the log
-    has n = c and every error result is the one its own command's responder produced (needs the invariant
-    "every command / reply in flight and every pending responder carries a tag that is outstanding at
-    the asker with the same call id, and these tags are pairwise distinct"; checked on every run by the
-    oracle, tags wrong-answer / wrong-result).  Proved: the part about tags -- *)
-Theorem answer_matches_own_question_partial : forall ops p,
+(** answer_matches_own_question.  [ECall c k] (ghost) records that call c was made for a command whose
+    responder behaves as k; [EFire q c o] that the pending responder for c completed with outcome o;
+    [EProduced c r] (ghost) that the answering side produced r as the reply to c.
+    Every result a callRemote Deferred ever fires with is either the connection-loss reason or exactly
+    what the answering side produced for THAT call, and that in turn is what its own command's responder
+    yields: [kind_res k c] for a responder of kind k (the value c it was called with, DeclaredError for a
+    declared error or a subclass, FatalError, UnknownRemoteError for an undeclared error,
+    UnhandledCommand when there is no responder), or [out_res o c] for a responder that answered later
+    with outcome o.  For every history: nested calls from callbacks, both peers, every responder kind,
+    out-of-order completion, loss at any point. *)
+Theorem answer_matches_own_question : forall ops c r,
+  In (EResult c r) (log (run init ops)) ->
+  r = RLost \/
+  (In (EProduced c r) (log (run init ops)) /\
+   ((exists k, In (ECall c k) (log (run init ops)) /\ k <> Klater /\ r = kind_res k c)
+    \/ (In (ECall c Klater) (log (run init ops)) /\
+        exists q o, In (EFire q c o) (log (run init ops)) /\ r = out_res o c))).
+Proof. exact answer_matches. Qed.
+Print Assumptions answer_matches_own_question.
+
+(** in particular a successful result always carries the caller's own argument back *)
+Theorem successful_result_is_own_answer : forall ops c n,
+  In (EResult c (ROk n)) (log (run init ops)) -> n = c.
+Proof. exact ok_result_is_own_id. Qed.
+Print Assumptions successful_result_is_own_answer.
+
+(** tags of a peer's outstanding requests are pairwise distinct and never exceed its counter *)
+Theorem outstanding_tags_unique : forall ops p,
   let s := fst (run init ops) in
   NoDup (map fst (outs s p)) /\ Forall (fun tc => fst tc <= cnt s p) (outs s p).
 Proof. exact tags_unique. Qed.
-Print Assumptions answer_matches_own_question_partial.
+Print Assumptions outstanding_tags_unique.
 
 (** ... and an answer whose tag is outstanding resolves exactly the request filed under it *)
 Theorem answer_resolves_the_request_with_its_tag : forall s q tag n c,
